@@ -53,6 +53,16 @@ def guards_of(mod: Mod, node: ast.AST, stop: ast.AST) -> List[Tuple[ast.AST, boo
     return out[::-1]
 
 
+def nguards(mod: Mod, node: ast.AST, stop: ast.AST) -> List[Tuple[str, bool]]:
+    """guards as (text, polarity) with leading `not`s folded into the polarity"""
+    out = []
+    for g, pol in guards_of(mod, node, stop):
+        while isinstance(g, ast.UnaryOp) and isinstance(g.op, ast.Not):
+            g, pol = g.operand, not pol
+        out.append((norm(g), pol))
+    return out
+
+
 def eval_guard(ctx: Ctx, e: ast.AST, v: str, env: Dict[str, bool]) -> Optional[bool]:
     if isinstance(e, ast.Name) and e.id in env:
         return env[e.id]
